@@ -187,7 +187,7 @@ def program(ds: DSpec, pname, tier):
 
 def build(tier, seed):
     rng = mk_rng(seed, "C09")
-    specs = pivot() + random_specs(rng, 3 if tier == "quick" else 20)
+    specs = pivot() + random_specs(rng, 6 if tier == "quick" else 24)
     programs = [program(s, "p%03d" % i, tier) for i, s in enumerate(specs)]
     return {
         "programs": programs,
